@@ -140,6 +140,12 @@ def startDue (bars : List SBar) (chans : List Int) (tick : Rat) :
 
 def maxLen (l : List Rat) : Rat := l.foldl (fun m x => if x > m then x else m) (l.headD 0)
 
+/-- `if cur[n] < len(bars[n]) - 1: cur[n] += 1` -/
+def bump (bars : List SBar) (cur : List Nat) (n : Nat) : List Nat :=
+  match cur[n]?, bars[n]? with
+  | some c, some b => if c + 1 < b.entries.length then cur.set n (c + 1) else cur
+  | _, _ => cur
+
 /-- the "adjust the duration in `playing`" loop -/
 def settle (bars : List SBar) (shortest : Rat) :
     List Playing → St × List Nat × List Playing → Except Err (St × List Nat × List Playing)
@@ -149,10 +155,7 @@ def settle (bars : List SBar) (shortest : Rat) :
     if duration ≥ tiny then settle bars shortest rest (st, cur, keep ++ [{ p with length := F64.div 1 duration }])
     else do
       let st ← stopNC st p.nc
-      let cur := match cur[p.n]?, bars[p.n]? with
-        | some c, some b => if c + 1 < b.entries.length then cur.set p.n (c + 1) else cur
-        | _, _ => cur
-      settle bars shortest rest (st, cur, keep)
+      settle bars shortest rest (st, bump bars cur p.n, keep)
 
 def barsLoop (bars : List SBar) (chans : List Int) (length0 : Rat) :
     Nat → St → Int → Rat → List Nat → List Playing → Except Err (St × Option Int × List Playing)
